@@ -473,6 +473,7 @@ def one_deletion(ctx, out, model, key, tgt, name, fn, rel, mode, req, impl, meta
     # the deleting accessor's own containment relation is not a stored reference; nothing to exclude
     snap0 = ol.tree_snapshot(loader)
     h0, d0 = ol.frag_hashes(loader), ol.index_dump(loader)
+    parentless = [id(x) for x in [tgt_el, *extra] if x.getparent() is None]   # roots of fragment files among the elements the call deletes (before the call)
     incoming = [r for r in refs if r["target"] in sub_n and r["owner"] not in sub_n and r["carrier"] not in sub_n]
     kinds = sorted({r["kind"] for r in incoming})
     try:
@@ -498,7 +499,7 @@ def one_deletion(ctx, out, model, key, tgt, name, fn, rel, mode, req, impl, meta
     # model request
     req.append({"op": "delete", "elems": [id(x) for x in elems],
                 "refs": [{k: v for k, v in r.items() if not k.startswith("_")} for r in refs], "sub": [id(x) for x in sub],
-                "local": local_sub})
+                "local": local_sub, "parentless": parentless})
     meta.append((key, name, tgt_uuid, [f"{r['kind']}:{r['slot']} on <{r['_e'].tag}> inside_sub={r['owner'] in sub_n or r['carrier'] in sub_n} target_in_sub={r['target'] in sub_n}" for r in refs]))
     if outcome != "ok":
         if outcome == "NotImplementedError":
